@@ -13,6 +13,7 @@ import (
 	"encoding/json"
 	"errors"
 	"fmt"
+	"log"
 	logslog "log/slog"
 	"os"
 	"os/exec"
@@ -56,6 +57,14 @@ type c08selfW struct {
 func (w *c08selfW) Write(p []byte) (int, error) {
 	w.l.Warn("destination reopened", "bytes", len(p) > 0)
 	return w.rec.Write(p)
+}
+
+// c08failW fails every Write.
+type c08failW struct{}
+
+func (c08failW) Write(p []byte) (int, error) {
+	sched.Point("Write")
+	return 0, errors.New("destination is gone")
 }
 
 func (r *lockedRec) Write(p []byte) (int, error) {
@@ -489,6 +498,37 @@ func c08scenarios() []c08scenario {
 					} else {
 						cs = append(cs, func() { l.Info(fmt.Sprintf("s19 thread %d call %d", t, i), "k", t) })
 					}
+				}
+				w.calls = append(w.calls, cs)
+			}
+			return w
+		}},
+		{"S20 two std loggers built on the writer of one std-log bridge", 0, func(th, cp int) *c08world {
+			w := &c08world{rec: &lockedRec{}, noDense: true}
+			l := c08logger("s20", "logfmt", w.rec)
+			bridge := slog.NewLogLogger(l, slog.InfoLevel)
+			stds := []*log.Logger{log.New(bridge.Writer(), "", 0), log.New(bridge.Writer(), "", 0), bridge}
+			for t := 0; t < th; t++ {
+				var cs []func()
+				for i := 0; i < cp; i++ {
+					t, i := t, i
+					cs = append(cs, func() { stds[t%len(stds)].Print(fmt.Sprintf("s20 thread %d call %d", t, i)) })
+				}
+				w.calls = append(w.calls, cs)
+			}
+			return w
+		}},
+		{"S21 calls whose destination fails (the diagnostic goes to the other device); the process-wide flags are what they were", 0, func(th, cp int) *c08world {
+			w := &c08world{rec: &lockedRec{}, noDense: true}
+			l := c08logger("s21", "logfmt", w.rec)
+			l.SetWriter(c08failW{})
+			slog.AddFlags(slog.Lcaller)
+			w.snap = func() string { return fmt.Sprintf("flags=%d", int64(slog.GetFlags())) }
+			for t := 0; t < th; t++ {
+				var cs []func()
+				for i := 0; i < cp; i++ {
+					t, i := t, i
+					cs = append(cs, func() { l.Info(fmt.Sprintf("s21 thread %d call %d", t, i), "k", t) })
 				}
 				w.calls = append(w.calls, cs)
 			}
